@@ -16,7 +16,11 @@ def main():
             if not ok:
                 print(out[-2000:])
                 bad += 1
-    sys.exit(1 if bad else 0)
+    if bad:
+        sys.exit(1)
+    # binding self-test: every trace spec accepts a good trace and reports a corrupted field at its event
+    from . import selftest
+    selftest.main()
 
 
 if __name__ == "__main__":
